@@ -83,3 +83,13 @@ def run_for(prop: str) -> int:
         print(f"ANALYSIS-ERROR property={prop}: checker self-test failed: " + "; ".join(f"{m}={st}" for m, st, _ in problems))
         return 2
     return 0
+
+
+if __name__ == "__main__":
+    from . import mutants
+
+    props = sys.argv[1:] or sorted({m[0] for m in mutants.CATALOGUE})
+    worst = 0
+    for p in props:
+        worst = max(worst, run_for(p))
+    sys.exit(worst)
